@@ -218,6 +218,10 @@ def _json_cat(c):
             return '(' + t + ')' if 'slash' in x else t
         return w(c['left']) + c['slash'] + w(c['right'])
     f = c.get('feature')
+    if isinstance(f, dict):
+        f = ','.join(f'{k}={v}' for k, v in f.items())
+    elif isinstance(f, (list, tuple)):
+        f = ','.join(f'{kv[0]}={kv[1]}' if isinstance(kv, (list, tuple)) else str(kv) for kv in f)
     return c['base'] + (f'[{f}]' if f else '')
 
 
@@ -296,7 +300,10 @@ def decode_jigg(text_or_root):
                         raise DecodeError('terminal reference / offsets')
                     attrs = tuple(sorted((k, v) for k, v in tk.attrib.items()
                                          if k not in ('id', 'start', 'cat', 'surf')))
-                    return ('L', sp.get('category'), tk.get('surf'), attrs + (('token_cat', tk.get('cat')),)), b, e
+                    # (the <token cat=...> copy of the first tree's leaf category is depccg's own addition: compared
+                    # when written)
+                    extra = (('token_cat', tk.get('cat')),) if tk.get('cat') is not None else ()
+                    return ('L', sp.get('category'), tk.get('surf'), attrs + extra), b, e
                 kids = []
                 cur = b
                 for cid in sp.get('child').split():
@@ -398,7 +405,7 @@ def decode_ja(text):
             end = s.index('}', pos[0])
             fields = s[pos[0]:end].split('/')
             pos[0] = end + 1
-            if len(fields) != 4 or fields[0] != fields[1]:
+            if len(fields) != 4:            # word / base form / pos / inflection
                 raise DecodeError(f'leaf fields {fields}')
             return ('L', first, fields[0], (('pos', fields[2]), ('inflection', fields[3])))
         t = node()
@@ -457,14 +464,14 @@ def decode_deriv(text):
 def decode_html(doc):
     from lxml import etree
     out = []
-    body = doc.split('<body>')[1].split('</body>')[0]
+    body = re.split(r'<body\b[^>]*>', doc, maxsplit=1)[1].split('</body>')[0]
     parts = re.split(r'<p>ID=(\d+): (.*?)</p>', body, flags=re.S)
     for k in range(1, len(parts) - 2, 3):
         si = int(parts[k])
         words_line = htmllib.unescape(parts[k + 1])
         chunk = parts[k + 2]
         ti = 0
-        for m in re.finditer(r'<p>Log prob=(\S+)</p>\s*<math\b[^>]*>(.*?)</math>',
+        for m in re.finditer(r'<p>[^<]*?[Ll]og prob=([^<\s]+)</p>\s*<math\b[^>]*>(.*?)</math>',
                              chunk, re.S):
             ti += 1
             root = etree.fromstring('<math>' + m.group(2) + '</math>')
@@ -499,8 +506,14 @@ def _prolog_terms(text):
     n = len(text)
 
     def ws():
-        while i[0] < n and text[i[0]] in ' \n\t':
-            i[0] += 1
+        while i[0] < n:
+            if text[i[0]] in ' \n\t\r':
+                i[0] += 1
+            elif text[i[0]] == '%':                 # a Prolog line comment
+                while i[0] < n and text[i[0]] != '\n':
+                    i[0] += 1
+            else:
+                break
 
     def quoted():
         i[0] += 1
